@@ -115,6 +115,11 @@ func (st *stub) handle(w http.ResponseWriter, r *http.Request) {
 	}
 	_ = json.Unmarshal(body, &req)
 	st.mu.Lock()
+	if ep != st.epoch { // the case this call belongs to ended while its body was being read
+		st.mu.Unlock()
+		w.WriteHeader(404)
+		return
+	}
 	out := "accept"
 	if idx < len(st.specs) {
 		if o, ok := st.specs[idx].Outcome[req.Op]; ok {
